@@ -1,0 +1,137 @@
+//! Verification hooks (compiled only with `--cfg rce_verif`): read-only views of the private
+//! parts of `Board`, plus setters used solely to build perturbed positions for key tests.
+#![allow(dead_code, clippy::all, clippy::pedantic, clippy::nursery)]
+
+use super::{Bitboard, Board, Color, Ply, ZKey};
+
+fn bb(b: Bitboard) -> u64 {
+    u64::from(b)
+}
+
+/// `start dest piece captured promoted castles ep double clock rights` on one token each
+pub fn ply_fields(p: &Ply) -> String {
+    let r = p.castling_rights;
+    let st = |s: super::CastlingStatus| u8::from(s == super::CastlingStatus::Available);
+    format!(
+        "{}:{}:{}:{}:{}:{}{}{}:{}:{}{}{}{}",
+        p.start.u8(),
+        p.dest.u8(),
+        kind_code(Some(p.piece)),
+        kind_code(p.captured_piece),
+        kind_code(p.promoted_to),
+        u8::from(p.is_castles),
+        u8::from(p.en_passant),
+        u8::from(p.is_double_pawn_push),
+        p.halfmove_clock,
+        st(r.white_kingside),
+        st(r.white_queenside),
+        st(r.black_kingside),
+        st(r.black_queenside),
+    )
+}
+
+/// 0..11 = colour * 6 + kind index (pawn, king, queen, rook, bishop, knight); `-` for none
+pub fn kind_code(k: Option<super::Kind>) -> String {
+    match k {
+        None => "-".to_string(),
+        Some(k) => (usize::from(k.get_color()) * 6 + usize::from(k)).to_string(),
+    }
+}
+
+/// The fifteen bitboards in declaration order
+pub fn bitboards(b: &Board) -> [u64; 15] {
+    let x = &b.bitboards;
+    [
+        bb(x.white_pawns),
+        bb(x.white_king),
+        bb(x.white_queens),
+        bb(x.white_rooks),
+        bb(x.white_knights),
+        bb(x.white_bishops),
+        bb(x.black_pawns),
+        bb(x.black_king),
+        bb(x.black_queens),
+        bb(x.black_rooks),
+        bb(x.black_knights),
+        bb(x.black_bishops),
+        bb(x.white_pieces),
+        bb(x.black_pieces),
+        bb(x.all_pieces),
+    ]
+}
+
+pub fn en_passant_file(b: &Board) -> Option<u8> {
+    b.en_passant_file
+}
+
+pub fn history(b: &Board) -> &[Ply] {
+    &b.history
+}
+
+/// (key, count) pairs of the repetition record, sorted by key
+pub fn position_history(b: &Board) -> Vec<(u64, u16)> {
+    let mut v: Vec<(u64, u16)> = b
+        .position_history
+        .iter()
+        .map(|(k, c)| (key_u64(*k), *c))
+        .collect();
+    v.sort_unstable();
+    v
+}
+
+pub fn key_u64(k: ZKey) -> u64 {
+    k.to_string().parse().unwrap()
+}
+
+pub fn scratch_key(b: &Board) -> u64 {
+    key_u64(ZKey::from(b))
+}
+
+/// Whole state on one line
+pub fn dump(b: &Board) -> String {
+    let bbs: Vec<String> = bitboards(b).iter().map(|x| format!("{x:x}")).collect();
+    let hist: Vec<String> = b.history.iter().map(ply_fields).collect();
+    let ph: Vec<String> = position_history(b)
+        .iter()
+        .map(|(k, c)| format!("{k:x}*{c}"))
+        .collect();
+    format!(
+        "t={} fm={} ep={} key={:x} bb={} hist={} ph={}",
+        if b.current_turn == Color::White { "w" } else { "b" },
+        b.fullmove_counter,
+        b.en_passant_file.map_or("-".to_string(), |f| f.to_string()),
+        key_u64(b.zkey),
+        bbs.join(","),
+        hist.join(","),
+        ph.join(","),
+    )
+}
+
+/// Overwrite the occupancy union only (used to query slider attacks through `Kind::get_attacks`)
+pub fn set_all_pieces(b: &mut Board, occ: u64) {
+    b.bitboards.all_pieces = Bitboard::new(occ);
+}
+
+/// Setters for single-component perturbations (the key is NOT updated: callers recompute it)
+pub fn set_en_passant_file(b: &mut Board, f: Option<u8>) {
+    b.en_passant_file = f;
+}
+
+pub fn set_castling(b: &mut Board, kind: super::CastlingKind, avail: bool) {
+    let st = if avail {
+        super::CastlingStatus::Available
+    } else {
+        super::CastlingStatus::Unavailable
+    };
+    let last = b.history.last_mut().unwrap();
+    match kind {
+        super::CastlingKind::WhiteKingside => last.castling_rights.white_kingside = st,
+        super::CastlingKind::WhiteQueenside => last.castling_rights.white_queenside = st,
+        super::CastlingKind::BlackKingside => last.castling_rights.black_kingside = st,
+        super::CastlingKind::BlackQueenside => last.castling_rights.black_queenside = st,
+    }
+}
+
+pub fn attacked_squares(b: &Board, color: Color) -> u64 {
+    bb(b.get_attacked_squares(color))
+}
